@@ -211,6 +211,8 @@ theorem getNodeColors_safe {ν : Nums} (hν : SafeNums ν) {side n : Nat} {label
           · exact hc
   · split at h
     · -- scores dict
+      split at h
+      · simp at h
       refine setMany_safe (AllSafe.replicate _ hc) ?_ h
       intro p hp
       simp only [List.mem_map] at hp
@@ -218,9 +220,11 @@ theorem getNodeColors_safe {ν : Nums} (hν : SafeNums ν) {side n : Nat} {label
       exact scoreColor_safe hν _ _
     · split at h
       · simp at h
-      · simp only [Except.ok.injEq] at h
-        subst h
-        exact AllSafe.tab _ _ (fun i => scoreColor_safe hν _ _)
+      · split at h
+        · simp at h
+        · simp only [Except.ok.injEq] at h
+          subst h
+          exact AllSafe.tab _ _ (fun i => scoreColor_safe hν _ _)
     · split at h
       · split at h
         · simp at h
@@ -233,6 +237,14 @@ theorem getNodeColors_safe {ν : Nums} (hν : SafeNums ν) {side n : Nat} {label
 theorem modIndex_safe {colors : List PyStr} {i : Nat} {c : PyStr} (hc : AllSafe colors)
     (h : modIndex colors i = .ok c) : SafeStr c := by
   unfold modIndex at h
+  split at h
+  · simp at h
+  · simp only [Except.ok.injEq] at h
+    exact h ▸ AllSafe.getD hc _
+
+theorem modIndexNp_safe {colors : List PyStr} {i : Nat} {c : PyStr} (hc : AllSafe colors)
+    (h : modIndexNp colors i = .ok c) : SafeStr c := by
+  unfold modIndexNp at h
   split at h
   · simp at h
   · simp only [Except.ok.injEq] at h
@@ -360,6 +372,8 @@ theorem getEdgeColors_safe {sort : List Int → List Nat} {nRow nCol : Nat} {es 
     (h : getEdgeColors sort nRow nCol es labs edgeColor lc = .ok ec) : AllSafe ec.colors ∧ ResidSafe ec.residual := by
   unfold getEdgeColors at h
   simp only at h
+  split at h
+  · simp at h
   split at h
   · simp only [Except.ok.injEq] at h
     subst h
@@ -563,10 +577,10 @@ theorem dendroStep_inner {ν : Nums} (hν : SafeNums ν) (a : DendroArgs) (hcol 
        refine Inner.append hst (dendroPaths_inner hν _ ?_)
        first
          | exact hcol
-         | (rename_i hm; exact modIndex_safe hcols (by assumption)))
+         | (rename_i hm; exact modIndexNp_safe hcols (by assumption)))
 
 theorem dendroTree_inner {ν : Nums} (hν : SafeNums ν) (a : DendroArgs) (hcol : SafeStr a.color)
-    (hcols : AllSafe a.colors) (index : List Nat) {ps : List Piece} (h : dendroTree ν a index = .ok ps) :
+    (hcols : AllSafe a.colors) (cut index : List Nat) {ps : List Piece} (h : dendroTree ν a cut index = .ok ps) :
     Inner ps := by
   unfold dendroTree at h
   simp only [bind, Except.bind, pure, Except.pure] at h
@@ -577,6 +591,30 @@ theorem dendroTree_inner {ν : Nums} (hν : SafeNums ν) (a : DendroArgs) (hcol 
     subst h
     exact foldlM_invariant (fun st => Inner st.out) _ _ _ _ Inner.nil
       (fun acc t acc' hacc hstep => dendroStep_inner hν a hcol hcols _ t hacc hstep) hst
+
+/-- what a successful `svg_dendrogram_top/left` went through -/
+theorem svgDendrogram_ok {ν : Nums} {a : DendroArgs} {svg : List Piece} (h : svgDendrogram ν a = .ok svg) :
+    ∃ cut index text paths, a.cutLabels = some cut ∧ getIndex a.merges a.reorder = .ok index ∧
+      a.merges.isEmpty = false ∧ dendroNames ν a index = .ok text ∧ dendroTree ν a cut index = .ok paths ∧
+      svg = svgDoc ν true false (text ++ paths) := by
+  unfold svgDendrogram at h
+  split at h
+  · simp at h
+  rename_i cut hcut
+  split at h
+  · simp at h
+  rename_i index hindex
+  split at h
+  · simp at h
+  rename_i hne
+  split at h
+  · simp at h
+  rename_i text htext
+  split at h
+  · simp at h
+  rename_i paths hpaths
+  simp only [Except.ok.injEq] at h
+  exact ⟨cut, index, text, paths, hcut, hindex, by simpa using hne, htext, hpaths, h.symm⟩
 
 /-! ### the document -/
 
